@@ -44,6 +44,14 @@ import (
 // another peer). Window and expiry parts do the same in a third / a quarter of their cases. In half of the entity
 // removals the notify additionally lists a never announced entity as removed, before or after the known one.
 //
+// Features that no longer resolve at the teardown (third PRNG): a second local entity [2] whose server features hold
+// entries and which the application removes (DeviceLocal.RemoveEntity) right before the teardown; a victim that
+// announces an entity again with a feature list lacking client features that hold entries. All and only the victim's
+// entries go, one removal event per entry (the unresolvable part of the event is a wildcard).
+// Early registrations (fourth PRNG): subscriptions / bindings of a peer's NodeManagement feature to the local
+// NodeManagement feature requested BEFORE the peer's detailed discovery reply (client address with or without device
+// part); after the teardown the application adds a local entity (notification fan-out to NodeManagement subscribers).
+//
 // expiry / expiry-race (c10Expiry): two peers, approval timeout 200 us - 2 ms, the teardown is aimed at
 // the moment the victim's timers expire (optionally held at the hook inside RemoveRemoteDevice), so the
 // race between a firing timer and the cleanup is exercised deliberately.
@@ -83,6 +91,12 @@ func init() {
 		"distinct = distinct (teardown kind, concurrent, #entries removed, #flags removed, #pending writes of the removed peer, #pending writes of others, victim re-announced, unknown entity listed). " +
 		"Repeated announcements (second per-case PRNG): every peer with probability 1/2 repeats its unchanged detailed discovery reply or announces one known entity again (partial notify lastStateChange=added with the entity's features) at a random point of the history, " +
 		"in a quarter of the cases additionally a random set of peers right before the cut; half of the entity-removal notifies also list a never announced entity [9] as removed, before or after the known one. " +
+		"Features that no longer resolve at the teardown (third PRNG): a second local entity [2] with two server features exists in every case; in half of the cases the peers subscribe to them from random entities (about 2 per peer) and each is bound by a random peer or nobody; " +
+		"in half of those the application removes that local entity (DeviceLocal.RemoveEntity) right before the teardown, and in a third of all cases the victim announces one of the entities the teardown is going to remove AGAIN (whole reply or partial 'added' notify) with a feature list that lacks client features holding entries: " +
+		"every entry of the victim is removed all the same and exactly one removal event is published per entry (matched on entity / client feature / local feature with the part that cannot resolve as a wildcard); whether entries of SURVIVING peers on features of the removed local entity stay is not judged. " +
+		"Early registrations (fourth PRNG), half of the cases: before its detailed discovery reply is processed a peer subscribes (2 in 3) / binds (the first that draws 1 in 3) with its NodeManagement feature [0]/0 to the local NodeManagement feature, client address with or without device part; one in four of these entries is given up again in the history (must be granted); " +
+		"they are entries of that connection (gone with it, one removal event each; kept when another entity is removed); after the teardown the application adds a local entity: every surviving NodeManagement subscriber is notified once, nothing is written to a removed connection; " +
+		"in half of these cases two further connections never complete discovery (no device address known), each subscribed to the local NodeManagement feature; one is dropped after the main teardown: exactly its entry goes (one subscription and one device removal event, none for others), the other keeps its subscription and is notified. " +
 		"expiry parts: case = 2 identically numbered peers, each bound to one approval feature, 1-3 writes of the victim and 0-2 of the other peer pending under a very short approval timeout (200 us - 2 ms); the disconnect (half of them held at the hook " +
 		"RemoveRemoteDevice.beforeCleanup) or the entity-removal notification is aimed at the expiry of those timers (offset within +-150 us); non-trivial if the expiry of at least one timer of the victim fell between start and return of the teardown call; " +
 		"distinct = distinct (kind, timeout, held at hook, #writes, how many of the victim's writes were answered before the teardown returned). " +
@@ -106,6 +120,8 @@ func init() {
 		"events are observed at the core level (synchronous)",
 		"window parts: the pause of the harness's event handler only places the other peers' requests; its expiry is never judged, and no verdict depends on whether a request was served during or after the cleanup. All requests concern pairs the teardown does not touch and server features the victim does not hold, so each of them must be acknowledged in every order",
 		"repeated announcements carry exactly the content of the first announcement (same entities, features, types, roles), so the announced tree - and with it everything the statement quantifies over - is unchanged; nothing is judged at the repeated announcement itself",
+		"a removal event for a registry entry whose server or client feature no longer resolves at the teardown cannot name that feature; the statement demands the event, not its payload, so such an event is accepted with the unresolvable part empty or filled",
+		"registry entries are identified by connection (SKI), client entity and feature numbers and server feature; a client address stored without device part (registered before the peer's device address was known) is read as that connection's device",
 		"stale-approvals histories: the time-outs of the first connection's writes are awaited by observing their error results (watchdog 20 s => inconclusive); an approval of the first connection that arrives after its write timed out is simply not counted by the stack, which weakens the history but not the verdicts, which are all on the state at the return of a call",
 		"reconnect parts: the clock only bounds the observation (5 x the short approval timeout after the removal returned, and until the other peer's timer has fired); the 30 min timeout of the re-sent writes stands for 'does not expire within the case'",
 	}
@@ -134,6 +150,9 @@ type c10Op struct {
 	srv  int    // index of the local server feature (sub, bind)
 	lc   int    // index of the local client feature (lsub, lbind)
 	how  string // reann: "reply" (the whole detailed discovery reply once more) | "added" (partial notify lastStateChange=added for the known entity ent)
+	// sub | bind | unsub | unbind with srv == c10NM: the peer's NodeManagement feature [0]/0 as client of the local
+	// NodeManagement feature [0]/0; nodev: the client address of the call omits the device part
+	nodev bool
 }
 
 func (o c10Op) String() string {
@@ -143,7 +162,17 @@ func (o c10Op) String() string {
 			return fmt.Sprintf("peer%d announces its (unchanged) tree AGAIN: second detailed discovery reply", o.peer)
 		}
 		return fmt.Sprintf("peer%d announces its known entity %s AGAIN: partial notify lastStateChange=added with the entity's (unchanged) features", o.peer, c06Key(o.ent))
-	case "sub", "bind":
+	case "sub", "bind", "unsub", "unbind":
+		if o.srv == c10NM {
+			form := "with"
+			if o.nodev {
+				form = "WITHOUT"
+			}
+			return fmt.Sprintf("peer%d %s its NodeManagement feature [0]/0 -> local NodeManagement [0]/0 (client address %s device part)", o.peer, o.kind, form)
+		}
+		if o.srv >= c10E2 {
+			return fmt.Sprintf("peer%d %s %s/%d -> server feature %d of the SECOND local entity [2]", o.peer, o.kind, c06Key(o.ent), c10E2Fid[o.srv-c10E2], o.srv-c10E2)
+		}
 		return fmt.Sprintf("peer%d %s %s/%d -> local server %d", o.peer, o.kind, c06Key(o.ent), o.srv+1, o.srv)
 	}
 	return fmt.Sprintf("local client %d %s -> peer%d %s/%d", o.lc, o.kind, o.peer, c06Key(o.ent), 7+o.lc)
@@ -202,6 +231,51 @@ type c10World struct {
 	hard  bool        // a deviation after which the reference is no longer trustworthy
 	tree  []rig.FS    // what every peer announces
 	reann []int       // per peer: number of re-announcements so far
+	// a second local entity [2] with two server features (indexes c10E2, c10E2+1 in c10Op.srv / c10Ent.srv) that the
+	// application may remove (DeviceLocal.RemoveEntity) before the teardown
+	srv2      []api.FeatureLocalInterface
+	e2Removed bool
+	unjudged  map[string]bool // registry entries of surviving peers on features of the removed local entity: not judged either way
+}
+
+// Server features of the second local entity [2] are addressed by the peers' client features 4 and 5 (the client
+// features of the same types, Setpoint and Hvac, that also address the local servers 3 and 4 of entity [1]).
+const c10E2 = 100
+const c10NM = 200 // the local NodeManagement feature [0]/0, addressed by the peers' NodeManagement feature [0]/0
+
+func c10OnE2(srv int) bool { return srv >= c10E2 && srv < c10NM }
+
+var c10E2Fid = []uint{4, 5}
+var c10E2Types = []model.FeatureTypeType{model.FeatureTypeTypeSetpoint, model.FeatureTypeTypeHvac}
+
+func (cw *c10World) sf(srv int) api.FeatureLocalInterface {
+	if srv == c10NM {
+		return cw.w.Local.FeatureByAddress(rig.LNM)
+	}
+	if srv >= c10E2 {
+		return cw.srv2[srv-c10E2]
+	}
+	return cw.srv[srv]
+}
+
+func c10SrvType(srv int) model.FeatureTypeType {
+	if srv == c10NM {
+		return model.FeatureTypeTypeNodeManagement
+	}
+	if srv >= c10E2 {
+		return c10E2Types[srv-c10E2]
+	}
+	return c10SrvTypes[srv]
+}
+
+func c10CliFid(srv int) uint {
+	if srv == c10NM {
+		return 0
+	}
+	if srv >= c10E2 {
+		return c10E2Fid[srv-c10E2]
+	}
+	return uint(srv + 1)
 }
 
 // Two deviations found by this check on earlier trees keep their own narrow signatures (both are repaired
@@ -261,7 +335,7 @@ func (cw *c10World) fail(sig, format string, a ...any) {
 }
 
 func (cw *c10World) regKey(kind string, peer int, ent []uint, fid uint, srv int) string {
-	return fmt.Sprintf("%-4s peer%d client=%s server=%s", kind, peer, rig.FA(cw.peers[peer].Addr, ent, fid).String(), cw.srv[srv].Address().String())
+	return fmt.Sprintf("%-4s peer%d client=%s server=%s", kind, peer, rig.FA(cw.peers[peer].Addr, ent, fid).String(), cw.sf(srv).Address().String())
 }
 
 // observed registries of all peers (also of a disconnected one: nothing of it may be left), keyed like regKey
@@ -269,11 +343,21 @@ func (cw *c10World) readRegs() map[string]int {
 	m := map[string]int{}
 	for i, p := range cw.peers {
 		rd := p.RD
+		// (the registries are read per connection; a client address that was registered before the peer's device
+		// address was known may lack the device part: it is that connection's device)
+		cli := func(a *model.FeatureAddressType) string {
+			if a != nil && a.Device == nil {
+				c := *a
+				c.Device = util.Ptr(model.AddressDeviceType(p.Addr))
+				return c.String()
+			}
+			return a.String()
+		}
 		for _, s := range cw.w.Local.SubscriptionManager().Subscriptions(rd) {
-			m[fmt.Sprintf("%-4s peer%d client=%s server=%s", "sub", i, s.ClientFeature.Address().String(), s.ServerFeature.Address().String())]++
+			m[fmt.Sprintf("%-4s peer%d client=%s server=%s", "sub", i, cli(s.ClientFeature.Address()), s.ServerFeature.Address().String())]++
 		}
 		for _, b := range cw.w.Local.BindingManager().Bindings(rd) {
-			m[fmt.Sprintf("%-4s peer%d client=%s server=%s", "bind", i, b.ClientFeature.Address().String(), b.ServerFeature.Address().String())]++
+			m[fmt.Sprintf("%-4s peer%d client=%s server=%s", "bind", i, cli(b.ClientFeature.Address()), b.ServerFeature.Address().String())]++
 		}
 	}
 	return m
@@ -294,6 +378,9 @@ func (cw *c10World) readFlag(f c10Flag) bool {
 // teardown ("" = whole device) for the classification of a deviation.
 func (cw *c10World) compare(when string, removedPeer int, removedEnt string) {
 	got := cw.readRegs()
+	for k := range cw.unjudged {
+		delete(got, k)
+	}
 	cw.c.Events(int64(len(got) + len(cw.univ)))
 	for k, e := range cw.regs {
 		if got[k] != 1 {
@@ -336,15 +423,38 @@ func (cw *c10World) exec(o c10Op, phase string) {
 		if n := p.PanicCount(); n > 0 {
 			cw.fail(phase+"/panic", "panic while handling a repeated announcement: %v", p.Panics)
 		}
+	case "unsub", "unbind":
+		fid := c10CliFid(o.srv)
+		ca, sa := rig.FA(p.Addr, o.ent, fid), cw.sf(o.srv).Address()
+		if o.nodev {
+			ca = rig.FA("", o.ent, fid)
+		}
+		cw.take(o.peer)
+		var mc model.MsgCounterType
+		if o.kind == "unsub" {
+			mc = p.Unsubscribe(ca, sa)
+		} else {
+			mc = p.Unbind(ca, sa)
+		}
+		res := rig.Classify(cw.take(o.peer), mc)
+		cw.c.Events(1)
+		if res.Success != 1 || res.Errors != 0 {
+			cw.fail(fmt.Sprintf("%s/%s-of-own-entry-not-granted", phase, o.kind), "%s: %s", o, res)
+			return
+		}
+		delete(cw.regs, cw.regKey(strings.TrimPrefix(o.kind, "un"), o.peer, o.ent, fid, o.srv))
 	case "sub", "bind":
-		fid := uint(o.srv + 1)
-		ca, sa := rig.FA(p.Addr, o.ent, fid), cw.srv[o.srv].Address()
+		fid := c10CliFid(o.srv)
+		ca, sa := rig.FA(p.Addr, o.ent, fid), cw.sf(o.srv).Address()
+		if o.nodev {
+			ca = rig.FA("", o.ent, fid)
+		}
 		cw.take(o.peer)
 		var mc model.MsgCounterType
 		if o.kind == "sub" {
-			mc = p.Subscribe(ca, sa, c10SrvTypes[o.srv])
+			mc = p.Subscribe(ca, sa, c10SrvType(o.srv))
 		} else {
-			mc = p.Bind(ca, sa, c10SrvTypes[o.srv])
+			mc = p.Bind(ca, sa, c10SrvType(o.srv))
 		}
 		res := rig.Classify(cw.take(o.peer), mc)
 		cw.c.Events(1)
@@ -416,6 +526,19 @@ func c10Case(c *rig.Ctx) {
 	for _, t := range c10CliTypes {
 		cw.cli = append(cw.cli, e.GetOrAddFeature(t, model.RoleTypeClient))
 	}
+	// a second local entity [2] with two server features (no approval callbacks): the application may remove it
+	// before the teardown, so that the server feature of a registry entry no longer resolves when the entry is removed
+	e2 := w.AddEntity(model.EntityTypeTypeHeatPumpAppliance, []uint{2}, 4*time.Second)
+	e2Addr := map[string]bool{}
+	for _, t := range c10E2Types {
+		f := e2.GetOrAddFeature(t, model.RoleTypeServer)
+		for _, fn := range c06FnsOf(t) {
+			f.AddFunctionType(fn.Fn, true, true)
+		}
+		cw.srv2 = append(cw.srv2, f)
+		e2Addr[f.Address().String()] = true
+	}
+	cw.unjudged = map[string]bool{}
 
 	// ---- peers with identical trees
 	var tree []rig.FS
@@ -429,13 +552,68 @@ func c10Case(c *rig.Ctx) {
 		}
 	}
 	cw.tree, cw.reann = tree, make([]int, 3)
+	// early registrations (fourth PRNG), in half of the cases: a peer subscribes (two peers in three) and binds (the first
+	// that draws it: a server feature has one binding) with its NodeManagement feature [0]/0 to the local NodeManagement
+	// feature BEFORE its detailed discovery reply has been processed - both sides read the discovery data at once, the
+	// peer got its answer first. The local device does not know the peer's device address at that time. The entries are
+	// entries of that connection like any other: they disappear with it, one removal event each, and they stay when
+	// another entity of the peer is removed.
+	aux3 := c10Aux(c, 30)
+	early := aux3.Intn(2) == 0
+	var earlyOps, earlyUndo []c10Op
 	for i := 0; i < 3; i++ {
 		p := w.AddPeer(i)
 		p.Ctr = uint64(i+1) * 100000
-		p.Announce(tree)
-		p.Tap.Take()
 		cw.peers = append(cw.peers, p)
 		cw.log = append(cw.log, nil)
+		if early {
+			bound := false
+			for _, o := range earlyOps {
+				bound = bound || o.kind == "bind"
+			}
+			var mine []c10Op
+			if aux3.Intn(3) > 0 {
+				mine = append(mine, c10Op{kind: "sub", peer: i, ent: []uint{0}, srv: c10NM, nodev: aux3.Intn(2) == 0})
+			}
+			if !bound && aux3.Intn(3) == 0 {
+				mine = append(mine, c10Op{kind: "bind", peer: i, ent: []uint{0}, srv: c10NM, nodev: aux3.Intn(2) == 0})
+			}
+			for _, o := range mine {
+				cw.exec(o, "before-discovery-reply")
+				earlyOps = append(earlyOps, o)
+				if aux3.Intn(4) == 0 { // given up again somewhere in the history, with either form of the client address
+					earlyUndo = append(earlyUndo, c10Op{kind: "un" + o.kind, peer: i, ent: []uint{0}, srv: c10NM, nodev: aux3.Intn(2) == 0})
+				}
+			}
+			cw.trace = append(cw.trace, fmt.Sprintf("peer%d: detailed discovery reply", i))
+		}
+		p.Announce(tree)
+		p.Tap.Take()
+		cw.log[i] = nil
+	}
+	if cw.hard {
+		return
+	}
+	// in half of the cases with early registrations two more connections exist whose discovery never completes within
+	// the case (the local device never learns their device address); each subscribes its NodeManagement feature to the
+	// local one. One of them is dropped after the main teardown: the other keeps its subscription.
+	var Z []*rig.Peer
+	if early && aux3.Intn(2) == 0 {
+		for i := 3; i < 5; i++ {
+			z := w.AddPeer(i)
+			z.Ctr = uint64(i+1) * 100000
+			dev := z.Addr
+			if aux3.Intn(2) == 0 {
+				dev = ""
+			}
+			mc := z.Subscribe(rig.FA(dev, []uint{0}, 0), rig.LNM, model.FeatureTypeTypeNodeManagement)
+			if res := rig.Classify(z.Tap.Take(), mc); res.Success != 1 || res.Errors != 0 {
+				cw.fail("before-discovery-reply/sub-not-granted", "peer%d (discovery not completed) subscribes its NodeManagement feature to the local one: %s", i, res)
+				return
+			}
+			cw.trace = append(cw.trace, fmt.Sprintf("peer%d connects, subscribes its NodeManagement feature [0]/0 -> local NodeManagement [0]/0 (client address device part %q) and never sends its discovery reply", i, dev))
+			Z = append(Z, z)
+		}
 	}
 	w.Core.Take()
 	baseline := runtime.NumGoroutine()
@@ -494,6 +672,38 @@ func c10Case(c *rig.Ctx) {
 			}
 		}
 	}
+	// entries on the second local entity (third PRNG): in half of the cases every peer subscribes from random entities
+	// to its two server features (about 2 subscriptions per peer) and each of the two is bound by a random peer or by
+	// nobody; all of that before the cut
+	aux2 := c10Aux(c, 20)
+	useE2 := aux2.Intn(2) == 0
+	if useE2 {
+		var extra []c10Op
+		for pi := range cw.peers {
+			for _, ea := range c10Ents {
+				for s2 := range cw.srv2 {
+					if aux2.Intn(10) < 3 {
+						extra = append(extra, c10Op{kind: "sub", peer: pi, ent: ea, srv: c10E2 + s2})
+					}
+				}
+			}
+		}
+		for s2 := range cw.srv2 {
+			if h := aux2.Intn(4) - 1; h >= 0 {
+				extra = append(extra, c10Op{kind: "bind", peer: h, ent: c10Ents[aux2.Intn(len(c10Ents))], srv: c10E2 + s2})
+			}
+		}
+		for _, o := range extra {
+			at := aux2.Intn(cut + 1)
+			ops = append(ops[:at], append([]c10Op{o}, ops[at:]...)...)
+			cut++
+		}
+	}
+	for _, o := range earlyUndo {
+		at := aux3.Intn(cut + 1)
+		ops = append(ops[:at], append([]c10Op{o}, ops[at:]...)...)
+		cut++
+	}
 	boundWhenReannounced := make([]int, 3) // bindings a peer held when it (last) announced itself again
 	for _, o := range ops[:cut] {
 		cw.exec(o, "setup")
@@ -519,7 +729,7 @@ func c10Case(c *rig.Ctx) {
 		}
 		sort.Strings(ks)
 		for _, k := range ks {
-			if en := cw.regs[k]; en.kind == "bind" && en.peer == pi && (en.srv < 3) == approvalOnly {
+			if en := cw.regs[k]; en.kind == "bind" && en.peer == pi && en.srv < c10E2 && (en.srv < 3) == approvalOnly {
 				bs = append(bs, en)
 			}
 		}
@@ -598,14 +808,77 @@ func c10Case(c *rig.Ctx) {
 	conc := r.Intn(3) == 0 || c.Race
 	hit := func(en c10Ent) bool { return en.peer == x && (remEnt == "" || en.ent == remEnt) }
 
-	// expectations
+	// ---- what the application / the victim does right before the teardown (third PRNG), so that a feature of a
+	// registry entry no longer resolves when the teardown removes the entry:
+	//   preLocal   the application removes the second local entity (DeviceLocal.RemoveEntity): the SERVER feature of
+	//              every entry on its two features is no longer part of the local device;
+	//   preShrink  the victim announces one of its entities (one that the teardown is going to remove) AGAIN with a
+	//              feature list that lacks some of its client features: the CLIENT feature of every entry of those is no
+	//              longer part of the remote entity.
+	// The statement: all and only the victim's entries disappear and a removal event is published for EACH of them.
+	// An event for such an entry cannot name the feature that no longer resolves, so events are matched per entry on
+	// what an event of the unchanged features would carry, with the unresolvable part as a wildcard.
+	preLocal := useE2 && aux2.Intn(2) == 0
+	preShrink := aux2.Intn(3) == 0
+	shrinkEnt := entOf(remEnt)
+	if kind == "disconnect" {
+		shrinkEnt = c10Ents[aux2.Intn(len(c10Ents))]
+	}
+	shrinkHow := c10ReannHow(aux2)
+	droppedFid := map[uint]bool{}
+	if preShrink {
+		var held []uint // client features of that entity of the victim that hold entries
+		seenF := map[uint]bool{}
+		var ks []string
+		for k := range cw.regs {
+			ks = append(ks, k)
+		}
+		sort.Strings(ks)
+		for _, k := range ks {
+			if en := cw.regs[k]; en.peer == x && en.ent == c06Key(shrinkEnt) && !seenF[en.fid] {
+				seenF[en.fid] = true
+				held = append(held, en.fid)
+			}
+		}
+		for _, f := range held { // every feature holding entries with probability 2/3, at least one of them
+			if aux2.Intn(3) > 0 {
+				droppedFid[f] = true
+			}
+		}
+		if len(held) > 0 && len(droppedFid) == 0 {
+			droppedFid[held[aux2.Intn(len(held))]] = true
+		}
+		if f := uint(1 + aux2.Intn(len(c10SrvTypes))); aux2.Intn(2) == 0 { // and possibly one without entries
+			droppedFid[f] = true
+		}
+		if len(droppedFid) == 0 {
+			preShrink = false
+		}
+	}
+	evKey := func(name, change, ent string, fid int, local string) string {
+		f := fmt.Sprint(fid)
+		if preShrink && ent == c06Key(shrinkEnt) && (fid < 0 || droppedFid[uint(fid)]) {
+			f = "(one the entity no longer announces)"
+		}
+		if preLocal && (local == "?" || e2Addr[local]) {
+			local = "(one of the removed local entity)"
+		}
+		return fmt.Sprintf("%s/%s ent=%s feature=%s local=%s", name, change, ent, f, local)
+	}
 	wantEv := map[string]int{}
 	nRegs, nFlags, nTwins := 0, 0, 0
+	nLocalGone, nClientGone := 0, 0 // entries of the victim whose server resp. client feature will not resolve at the teardown
 	for k, en := range cw.regs {
 		if hit(en) {
-			wantEv[fmt.Sprintf("%s/remove ent=%s feature=%d local=%s", map[string]string{"sub": "Subscription", "bind": "Binding"}[en.kind], en.ent, en.fid, cw.srv[en.srv].Address().String())]++
+			wantEv[evKey(map[string]string{"sub": "Subscription", "bind": "Binding"}[en.kind], "remove", en.ent, int(en.fid), cw.sf(en.srv).Address().String())]++
 			delete(cw.regs, k)
 			nRegs++
+			if preLocal && c10OnE2(en.srv) {
+				nLocalGone++
+			}
+			if preShrink && en.ent == c06Key(shrinkEnt) && droppedFid[en.fid] {
+				nClientGone++
+			}
 		}
 	}
 	for _, en := range cw.regs { // same numbers on another peer
@@ -716,6 +989,76 @@ func c10Case(c *rig.Ctx) {
 		cw.take(pi) // results of the setup; the pending writes have not been answered unless their timer fired already
 	}
 	w.Core.Take()
+	// (events published from here on are judged: should the stack ever drop the entries at these calls already, their
+	// removal events count all the same)
+	if preLocal {
+		cw.trace = append(cw.trace[:len(cw.trace)-1], fmt.Sprintf("the application removes the second local entity [2] (DeviceLocal.RemoveEntity); peer%d holds %d entries on its server features", x, nLocalGone), cw.trace[len(cw.trace)-1])
+		okR, pan := rig.Guard(30*time.Second, func() { w.Local.RemoveEntity(e2) })
+		if pan != "" {
+			cw.fail(kind+"/panic", "DeviceLocal.RemoveEntity of the second local entity: %s", pan)
+			return
+		}
+		if !okR {
+			c.Inconclusive("DeviceLocal.RemoveEntity did not return within 30s")
+			return
+		}
+		cw.e2Removed = true
+		// whether the entries of the SURVIVING peers on the removed entity's features stay is outside the statement
+		for k, en := range cw.regs {
+			if c10OnE2(en.srv) {
+				cw.unjudged[k] = true
+				delete(cw.regs, k)
+			}
+		}
+		c.Count("teardowns_after_the_application_removed_a_local_entity", 1)
+		if nLocalGone > 0 {
+			c.Count("teardowns_after_the_application_removed_a_local_entity_on_which_the_victim_held_entries", 1)
+			c.Count("entries_removed_whose_server_feature_no_longer_resolved", int64(nLocalGone))
+		}
+	}
+	if preShrink {
+		var dl []string
+		for f := range droppedFid {
+			dl = append(dl, fmt.Sprint(f))
+		}
+		sort.Strings(dl)
+		cw.trace = append(cw.trace[:len(cw.trace)-1], fmt.Sprintf("peer%d announces its entity %s AGAIN (%s) with a feature list that lacks the client features {%s}; it holds %d entries from those", x, c06Key(shrinkEnt), shrinkHow, strings.Join(dl, ","), nClientGone), cw.trace[len(cw.trace)-1])
+		var feats []rig.FS
+		for _, f := range cw.tree {
+			if c06Key(f.Ent) == c06Key(shrinkEnt) && f.Role == model.RoleTypeClient && droppedFid[f.Id] {
+				continue
+			}
+			if shrinkHow == "reply" || c06Key(f.Ent) == c06Key(shrinkEnt) {
+				feats = append(feats, f)
+			}
+		}
+		if shrinkHow == "reply" {
+			X.Announce(feats)
+		} else {
+			X.NotifyDiscovery(true, X.Discovery(feats, map[string]model.NetworkManagementStateChangeType{fmt.Sprint(shrinkEnt): model.NetworkManagementStateChangeTypeAdded}, nil))
+		}
+		cw.reann[x]++
+		cw.take(x)
+		if n := X.PanicCount(); n > 0 {
+			cw.fail(kind+"/panic", "panic while handling the repeated announcement with fewer features: %v", X.Panics)
+			return
+		}
+		c.Count("teardowns_after_the_victim_announced_an_entity_again_with_fewer_features", 1)
+		if nClientGone > 0 {
+			c.Count("teardowns_after_the_victim_announced_an_entity_again_without_client_features_that_held_entries", 1)
+			c.Count("entries_removed_whose_client_feature_no_longer_resolved", int64(nClientGone))
+		}
+	}
+	// of what these two calls published only subscription / binding events are carried over to the teardown's account
+	// (a repeated discovery reply legitimately publishes its own device event)
+	var carried []rig.Ev
+	if preLocal || preShrink {
+		for _, ev := range w.Core.Take() {
+			if ev.P.EventType == api.EventTypeSubscriptionChange || ev.P.EventType == api.EventTypeBindingChange {
+				carried = append(carried, ev)
+			}
+		}
+	}
 	var hooks *rig.Hooks
 	if conc {
 		hooks = rig.InstallHooks()
@@ -869,7 +1212,7 @@ func c10Case(c *rig.Ctx) {
 	// ---- (3) events
 	gotEv := map[string]int{}
 	var evList []string
-	for _, ev := range w.Core.Take() {
+	for _, ev := range append(carried, w.Core.Take()...) {
 		evList = append(evList, ev.String())
 		if ev.P.EventType == api.EventTypeDataChange {
 			continue
@@ -888,7 +1231,7 @@ func c10Case(c *rig.Ctx) {
 			if !rig.IsNil(ev.P.LocalFeature) {
 				loc = ev.P.LocalFeature.Address().String()
 			}
-			k = fmt.Sprintf("%s/%s ent=%s feature=%d local=%s", name, c10Ch(ev.P.ChangeType), ent, fid, loc)
+			k = evKey(name, c10Ch(ev.P.ChangeType), ent, fid, loc)
 		case api.EventTypeEntityChange:
 			ent := "?"
 			if !rig.IsNil(ev.P.Entity) && ev.P.Entity.Address() != nil {
@@ -953,6 +1296,127 @@ func c10Case(c *rig.Ctx) {
 	}
 	if cw.hard {
 		return
+	}
+
+	// ---- (4a) cases with early registrations: the application adds a local entity after the teardown. Every peer that
+	// still holds a NodeManagement subscription is told exactly once, a removed connection is told nothing.
+	if early {
+		for pi := range cw.peers {
+			cw.take(pi)
+		}
+		if len(Z) == 2 {
+			// one of the two connections that never completed discovery is dropped
+			w.Core.Take()
+			okZ, pan := rig.Guard(30*time.Second, func() { w.Local.RemoveRemoteDeviceConnection(Z[0].Ski) })
+			if pan != "" {
+				cw.fail(when+"/panic", "RemoveRemoteDeviceConnection of a connection without completed discovery: %s", pan)
+				return
+			}
+			if !okZ {
+				c.Inconclusive("RemoveRemoteDeviceConnection did not return within 30s")
+				return
+			}
+			cw.trace = append(cw.trace, "peer3 (discovery never completed) is disconnected; peer4 (the same) stays")
+			var subRem, devRem int
+			var foreign, evl []string
+			for _, ev := range w.Core.Take() {
+				evl = append(evl, ev.String())
+				switch {
+				case ev.P.Ski != Z[0].Ski:
+					foreign = append(foreign, ev.String())
+				case ev.P.EventType == api.EventTypeSubscriptionChange && ev.P.ChangeType == api.ElementChangeRemove:
+					subRem++
+				case ev.P.EventType == api.EventTypeDeviceChange && ev.P.ChangeType == api.ElementChangeRemove:
+					devRem++
+				}
+			}
+			c.Events(int64(len(evl) + 2))
+			if subRem != 1 {
+				cw.fail(when+"/undiscovered-peer/removal-events-for-its-subscription", "%d subscription removal events for the one NodeManagement subscription of the disconnected peer3; events: %v", subRem, evl)
+			}
+			if devRem != 1 {
+				cw.fail(when+"/undiscovered-peer/removal-events-for-the-device", "%d device removal events for peer3; events: %v", devRem, evl)
+			}
+			if len(foreign) > 0 {
+				cw.fail(when+"/undiscovered-peer/event-for-other-peer", "the disconnect of peer3 published events for other connections: %v", foreign)
+			}
+			if n := len(w.Local.SubscriptionManager().Subscriptions(Z[0].RD)); n != 0 {
+				cw.fail(when+"/undiscovered-peer/sub-entry-survives", "%d subscriptions of the disconnected peer3 are left", n)
+			}
+			if n := len(w.Local.SubscriptionManager().Subscriptions(Z[1].RD)); n != 1 {
+				cw.fail(when+"/undiscovered-peer/sub-entry-of-other-peer-lost", "peer4 (connected, discovery not completed either) holds %d subscriptions after the disconnect of peer3, it held 1", n)
+			}
+			if !rig.IsNil(w.Local.RemoteDeviceForSki(Z[0].Ski)) || w.Local.RemoteDeviceForSki(Z[1].Ski) != Z[1].RD {
+				cw.fail(when+"/undiscovered-peer/resolvability", "after the disconnect of peer3: peer3 resolves by SKI: %v, peer4 resolves: %v", !rig.IsNil(w.Local.RemoteDeviceForSki(Z[0].Ski)), w.Local.RemoteDeviceForSki(Z[1].Ski) == Z[1].RD)
+			}
+			cw.compare(when, x, remEnt)
+			c.Count("disconnects_of_a_connection_without_completed_discovery_next_to_another_one", 1)
+			if cw.hard {
+				return
+			}
+			Z[0].Tap.Take()
+			Z[1].Tap.Take()
+		}
+		e3 := spine.NewEntityLocal(w.Local, model.EntityTypeTypeInverter, spine.NewAddressEntityType([]uint{3}), 4*time.Second)
+		e3.GetOrAddFeature(model.FeatureTypeTypeMeasurement, model.RoleTypeServer)
+		okA, pan := rig.Guard(30*time.Second, func() { w.Local.AddEntity(e3) })
+		if pan != "" {
+			cw.fail(when+"/panic", "DeviceLocal.AddEntity after the teardown: %s", pan)
+			return
+		}
+		if !okA {
+			c.Inconclusive("DeviceLocal.AddEntity did not return within 30s")
+			return
+		}
+		cw.trace = append(cw.trace, "the application adds a local entity [3] (DeviceLocal.AddEntity): NodeManagement subscribers are notified")
+		for pi := range cw.peers {
+			n := 0
+			outs := cw.take(pi)
+			for _, d := range outs {
+				if d.Header.CmdClassifier != nil && *d.Header.CmdClassifier == model.CmdClassifierTypeNotify && len(d.Payload.Cmd) > 0 && d.Payload.Cmd[0].NodeManagementDetailedDiscoveryData != nil {
+					n++
+				}
+			}
+			_, sub := cw.regs[cw.regKey("sub", pi, []uint{0}, 0, c10NM)]
+			c.Events(1)
+			switch {
+			case kind == "disconnect" && pi == x:
+				if len(outs) > 0 {
+					cw.fail(when+"/entity-notification-written-to-removed-connection", "%d datagrams were written to the connection of peer%d (removed) when the application added a local entity: %s", len(outs), pi, rig.JS(outs[0]))
+				}
+			case sub && n != 1:
+				cw.fail(when+"/entity-notification-to-surviving-NodeManagement-subscriber-count", "peer%d holds a NodeManagement subscription (requested before its discovery reply) and received %d entity notifications for the added local entity", pi, n)
+			case !sub && n != 0:
+				cw.fail(when+"/entity-notification-to-peer-without-NodeManagement-subscription", "peer%d holds no NodeManagement subscription and received %d entity notifications", pi, n)
+			}
+		}
+		if len(Z) == 2 {
+			count := func(z *rig.Peer) (n, all int) {
+				for _, d := range z.Tap.Take() {
+					all++
+					if d.Header.CmdClassifier != nil && *d.Header.CmdClassifier == model.CmdClassifierTypeNotify && len(d.Payload.Cmd) > 0 && d.Payload.Cmd[0].NodeManagementDetailedDiscoveryData != nil {
+						n++
+					}
+				}
+				return
+			}
+			if _, all := count(Z[0]); all != 0 {
+				cw.fail(when+"/undiscovered-peer/entity-notification-written-to-removed-connection", "%d datagrams were written to the removed connection of peer3 when the application added a local entity", all)
+			}
+			if n, _ := count(Z[1]); n != 1 {
+				cw.fail(when+"/undiscovered-peer/entity-notification-to-surviving-NodeManagement-subscriber-count", "peer4 holds a NodeManagement subscription and received %d entity notifications for the added local entity", n)
+			}
+			c.Events(2)
+		}
+		c.Count("teardowns_with_NodeManagement_registrations_made_before_the_discovery_reply", 1)
+		for _, o := range earlyOps {
+			if o.peer == x {
+				c.Count("teardowns_of_a_peer_with_a_NodeManagement_"+o.kind+"_made_before_its_discovery_reply:"+kind, 1)
+			}
+		}
+		if cw.hard {
+			return
+		}
 	}
 
 	// ---- (4b) late verdicts of the application, in half of the cases: an approval for every write that
@@ -1213,7 +1677,7 @@ func c10Case(c *rig.Ctx) {
 			c.Count("teardowns_of_a_peer_that_had_announced_itself_again_while_holding_bindings", 1)
 		}
 	}
-	c.Shape(fmt.Sprintf("%s conc=%v regs=%d flags=%d pendX=%d pendO=%d reannX=%v unk=%s", kind, conc, nRegs, nFlags, len(wXent), len(wOther), reannX, unknownPos))
+	c.Shape(fmt.Sprintf("%s conc=%v regs=%d flags=%d pendX=%d pendO=%d reannX=%v unk=%s localGone=%d clientGone=%d early=%d", kind, conc, nRegs, nFlags, len(wXent), len(wOther), reannX, unknownPos, nLocalGone, nClientGone, len(earlyOps)))
 	c.NonTrivial(nRegs > 0 && nFlags > 0 && nTwins > 0)
 	tr := cw.trace
 	if len(tr) > 40 {
